@@ -173,10 +173,64 @@ fn scale(w: &mut Worker) {
     }
 }
 
+/// A function that calls itself from inside a block of its body - the then-branch of an if with an
+/// else, the else-branch, an elseif-branch, an if without else, a while body, an if inside a for body -
+/// where the branch has no return of its own and the body goes on behind the block: every level comes
+/// back into its own branch, runs the rest of it, leaves the block once and returns its own value.
+fn recursion_through_blocks(w: &mut Worker) {
+    let depths: Vec<u64> = w.tier.pick((0..=4).collect(), (0..=9).collect());
+    // (name, block with CALL and BASE as place holders)
+    let kinds: [(&str, &str); 8] = [
+        ("then-branch", "if greater_than ${n} 0\nCALL\nelse\nBASE\nend"),
+        ("else-branch", "if equals ${n} 0\nBASE\nelse\nCALL\nend"),
+        ("elseif-branch", "if equals ${n} 0\nBASE\nelseif greater_than ${n} 0\nCALL\nelse\nbad = set reached\nend"),
+        ("second-elseif-branch", "if equals ${n} 0\nBASE\nelseif false\nbad = set reached\nelseif greater_than ${n} 0\nCALL\nend"),
+        ("if-without-else", "if equals ${n} 0\nBASE\nend\nif greater_than ${n} 0\nCALL\nend"),
+        ("nested-if", "if true\nif greater_than ${n} 0\nCALL\nelse\nBASE\nend\nelse\nbad = set reached\nend"),
+        ("while-body", "if equals ${n} 0\nBASE\nend\ngo = greater_than ${n} 0\nwhile ${go}\nCALL\ngo = set false\nend"),
+        ("if-in-for-body", "for it in ${one}\nif greater_than ${n} 0\nCALL\nelse\nBASE\nend\nend"),
+    ];
+    for (kind, block) in kinds {
+        for &d in &depths {
+            // plain function: one shared trace; every level restores its own number from what came back
+            let call = "m = calc ${n} - 1\nr = rec ${m}\nn = calc ${r} + 1\nt = set \"${t}b${n}\"";
+            let base = "t = set \"${t}z\"";
+            let text = format!(
+                "one = array only\nt = set \"\"\nfn rec\nt = set \"${{t}}e${{1}}\"\nn = set ${{1}}\n{}\nt = set \"${{t}}x${{n}}\"\nreturn ${{n}}\nend\nout = rec {}\nafter = set reached",
+                block.replace("CALL", call).replace("BASE", base),
+                d
+            );
+            let mut trace = String::new();
+            for k in (0..=d).rev() {
+                trace.push_str(&format!("e{}", k));
+            }
+            trace.push_str("zx0");
+            for k in 1..=d {
+                trace.push_str(&format!("b{}x{}", k, k));
+            }
+            scale_case(w, &format!("recursion-through-block {} depth {}", kind, d), &text, &[("t", Some(trace)), ("out", Some(d.to_string())), ("bad", None), ("after", Some("reached".into()))]);
+            // scoped function: the trace travels in the returned values, every level keeps its own variables
+            let call = "m = calc ${n} - 1\nr = srec ${m}\nacc = set \"${r}b${n}\"";
+            let base = "acc = set z";
+            let text = format!(
+                "one = array only\nfn <scope> srec\nn = set ${{1}}\none = array only\n{}\nrelease ${{one}}\nreturn \"${{acc}}x${{n}}\"\nend\nkeep = set mine\nout = srec {}\nafter = set reached",
+                block.replace("CALL", call).replace("BASE", base),
+                d
+            );
+            let mut ret = String::from("zx0");
+            for k in 1..=d {
+                ret.push_str(&format!("b{}x{}", k, k));
+            }
+            scale_case(w, &format!("recursion-through-block-scoped {} depth {}", kind, d), &text, &[("out", Some(ret)), ("keep", Some("mine".into())), ("bad", None), ("n", None), ("acc", None), ("after", Some("reached".into()))]);
+        }
+    }
+}
+
 pub fn worker(w: &mut Worker) {
     let tier = w.tier;
     w.set_case_limit_ms(20_000);
     scale(w);
+    recursion_through_blocks(w);
     let rig = FlowRig::new();
     let (devs, horizon) = tier.pick((2usize, 8usize), (3usize, 10usize));
     let maxblocks = tier.pick(1usize, 2usize);
@@ -476,7 +530,7 @@ pub fn crash_sig(_case: &Value, kind: &str) -> String {
     kind.to_string()
 }
 
-pub const RULE: &str = "family 1: one function (plain and <scope>) whose body is every block forest with 0..B blocks (if/elseif/else, while, for-in) with nothing, `return r1` or a bare `return` planted at every position of the body (depth-first, inside every nesting), with and without a trailing `return r9`; main sets a global and a pre-existing output variable and calls the function in every sequence of 1..2 call forms and selected triples from {statement, `x = f p`, `x = f \"q r\" s`, condition position `if f p`}. family 2: two functions where the outer one calls the inner one (as assignment, statement, in condition position, from a for body) and the inner one returns from inside for / while-in-if or calls itself guarded by an answer (also from inside a for body), all scoped/plain combinations. family 3: 'find first' functions (a loop that returns from a later iteration) called two or three times in every form, explored with 4-5 deviations. Every answer sequence (truth values, array lengths) with bounded deviations; each execution compared with the tree-walking interpreter with call semantics (arguments as global variables 1..n, scoped save/restore, value-less end leaves the output variable undefined). Function-body emits show ${1} and a global ${g} so argument binding and scope isolation are observable. The two corners the property leaves open are masked. family 4: a <scope> function whose locals are named like the caller's output variable, global and a fresh name, ending by reaching its end / bare return / value (also from inside a taken branch), called in five sequences of forms from a caller that had no value in the output variable. Scale family: plain and <scope> recursion of depth 10/70/300 (thorough: 1000, 3000), a function called from a loop 10..300 times, a function that returns from inside its own for/in loop called 2x10..300 times, a scoped function called from a plain one called from a loop; results and the variables that must stay undefined are compared with values computed in Rust";
+pub const RULE: &str = "family 1: one function (plain and <scope>) whose body is every block forest with 0..B blocks (if/elseif/else, while, for-in) with nothing, `return r1` or a bare `return` planted at every position of the body (depth-first, inside every nesting), with and without a trailing `return r9`; main sets a global and a pre-existing output variable and calls the function in every sequence of 1..2 call forms and selected triples from {statement, `x = f p`, `x = f \"q r\" s`, condition position `if f p`}. family 2: two functions where the outer one calls the inner one (as assignment, statement, in condition position, from a for body) and the inner one returns from inside for / while-in-if or calls itself guarded by an answer (also from inside a for body), all scoped/plain combinations. family 3: 'find first' functions (a loop that returns from a later iteration) called two or three times in every form, explored with 4-5 deviations. Every answer sequence (truth values, array lengths) with bounded deviations; each execution compared with the tree-walking interpreter with call semantics (arguments as global variables 1..n, scoped save/restore, value-less end leaves the output variable undefined). Function-body emits show ${1} and a global ${g} so argument binding and scope isolation are observable. The two corners the property leaves open are masked. family 4: a <scope> function whose locals are named like the caller's output variable, global and a fresh name, ending by reaching its end / bare return / value (also from inside a taken branch), called in five sequences of forms from a caller that had no value in the output variable. Scale family: plain and <scope> recursion of depth 10/70/300 (thorough: 1000, 3000), a function called from a loop 10..300 times, a function that returns from inside its own for/in loop called 2x10..300 times, a scoped function called from a plain one called from a loop; results and the variables that must stay undefined are compared with values computed in Rust Recursion through blocks: a function calling itself from the then / else / elseif / second elseif branch, an if without else, a nested if, a while body, an if inside a for body - no return inside the branch, the body goes on behind the block - depth 0..4 (thorough 9), plain (shared trace) and scoped (trace in the returned values)";
 pub const ASSUMPTIONS: &[&str] = &["spelling of fn/return keywords rotates over their aliases and full names", "loop variables after their loop and handle names are masked in the final variables"];
 pub const EXHAUSTIVE: bool = true;
 pub const WALL_CAP_S: (u64, u64) = (55, 2700);
